@@ -575,7 +575,7 @@ class Fxp():
             val_max = int(np.max(val)*(1 << n_frac))
             val_min = int(np.min(val)*(1 << n_frac))
             n_int = 0
-            while n_int < n_word_max - sign:
+            while n_int < n_word_max - sign + n_frac:
                 msb_max = (val_max >> n_int) + (1 if val_max < 0 else 0)
                 msb_min = (val_min >> n_int) + (1 if val_min < 0 else 0)
 
@@ -583,7 +583,8 @@ class Fxp():
                     break
                 n_int += 1
 
-            n_int = max(n_int - n_frac, 0)
+            # (the loop counts the bits of the scaled value: the limit applies to the integer part only)
+            n_int = min(max(n_int - n_frac, 0), n_word_max - sign)
 
             # size assignement
             if n_word is None:
